@@ -9,7 +9,7 @@
      wfaults = VList [VTup [VInt call; VInt mode; VInt j; VInt cls]; ...]   mode 0 before, 1 after mkdir, 2 torn after j bytes
      cfaults = VList [VTup [VInt partition; VInt attempt; VInt cls; VBool lazy]; ...]
      cls     = 0 injector's own Exception | 1 OSError | 2 StopIteration | 3 GeneratorExit | 4 StopIteration from next() on an empty iterator
-   result = VTup [outcome; final fs; VList history; VInt dump_calls; VBool locked; follow-up job; read-back; names; per-part read]
+   result = VTup [outcome; final fs; VList history; VInt dump_calls; VBool locked; follow-up job; read-back; names; per-part read; read through <path>/part-*; second save]
      names = the real file names in the final directory (from the regenerated format), in byte order
      entries of a directory in name order; read-back = VNone when not read (no marker / failed save) *)
 From Coq Require Import ZArith NArith List Bool String.
@@ -166,8 +166,23 @@ Definition observe (p : plan) (m : nat) (xs : list A) (f0 : fs) : val :=
                                           end) (sort_entries (filter is_part ch)))
     | _, _ => VNone
     end in
+  (* the same directory read through the pattern <path>/part-*: the part files, in name order *)
+  let read_glob :=
+    match readback, s_fs s1 with
+    | VNone, _ => VNone
+    | _, FDir _ => readback
+    | _, _ => VNone
+    end in
+  (* a second, fault-free save of the same data to the same path after a successful one: outcome, and whether
+     the target is unchanged *)
+  let resave :=
+    match r with
+    | Ok _ => let '(r3, s3) := save A render sv no_faults m xs (init_st (s_fs s1) 0 false) in
+              VTup [enc_res r3; VBool (val_eqb (enc_fs (s_fs s3)) (enc_fs (s_fs s1)))]
+    | Err _ => VNone
+    end in
   VTup [enc_res r; enc_fs (s_fs s1); VList (map enc_fs (s_hist s1)); VInt (Z.of_nat (s_calls s1));
-        VBool (s_locked s1); enc_res r2; readback; VList names; per_part].
+        VBool (s_locked s1); enc_res r2; readback; VList names; per_part; read_glob; resave].
 End Observe.
 
 (* text *)
@@ -204,7 +219,7 @@ Fixpoint unpickle (tbl : list (bytes * list val)) (b : bytes) : res (list val) :
 
 Definition run (c : val) : val :=
   match c with
-  | VTup [VInt saver; VInt m; VList parts; pre; VList wfs; VList cfs; VStr ext; VTup [VInt pmode; VInt pk]] =>
+  | VTup [VInt saver; VInt m; VList parts; pre; VList wfs; VList cfs; VStr ext; VTup [VInt pmode; VInt pk]; VStr _] =>   (* last: the name of the target, opaque *)
       match dec_fs pre, dec_wfaults wfs, dec_cfaults cfs with
       | Some f0, Some w, Some cfl =>
           let sizes := map (fun v => match v with
